@@ -451,6 +451,10 @@ def _canon_len(seq):
     return t
 
 
+ASCII_RANGES = {"is_ascii_digit": (48, 57), "is_ascii_uppercase": (65, 90), "is_ascii_lowercase": (97, 122),
+                "is_ascii": (0, 127), "is_ascii_graphic": (33, 126)}
+
+
 class Cons:
     """branch constraints of one path"""
 
@@ -510,6 +514,15 @@ class Cons:
                                 a, b = lit[1], l2[1]
                                 if not (a.startswith(b) or b.startswith(a)):
                                     return False
+        if v == 1 and t[0] == "call" and len(t[2]) == 1 and t[1].split("::")[-1] in ASCII_RANGES and "<impl u8>" in t[1]:
+            # a byte classification that names one contiguous range: the byte lies in it
+            x = t[2][0]
+            if isinstance(x, tuple) and x and x[0] == "&":
+                x = x[1]
+            lo, hi = ASCII_RANGES[t[1].split("::")[-1]]
+            TY.setdefault(x, (8, False))
+            self.rel.append(("Le", const(lo), x))
+            self.rel.append(("Le", x, const(hi)))
         if t[0] == "binop" and t[1] in CMP_OPS:
             op, a, b = t[1], t[2], t[3]
             if v == 0:
@@ -585,7 +598,7 @@ class Cons:
 # ------------------------------------------------------------------ interpreter state
 
 class Frame:
-    __slots__ = ("info", "fid", "bb", "ret_dest", "ret_target", "open_loops", "visits", "wrap", "depth", "end_as")
+    __slots__ = ("info", "fid", "bb", "ret_dest", "ret_target", "open_loops", "visits", "wrap", "depth", "end_as", "end_try")
 
     def __init__(self, info, fid, depth):
         self.info = info
@@ -597,6 +610,7 @@ class Frame:
         self.visits = {}
         self.wrap = None
         self.end_as = None
+        self.end_try = None
         self.depth = depth
 
     def copy(self):
@@ -608,6 +622,7 @@ class Frame:
         f.visits = dict(self.visits)
         f.wrap = self.wrap
         f.end_as = self.end_as
+        f.end_try = self.end_try
         return f
 
 
@@ -742,8 +757,25 @@ class PX:
                     return
                 if fr.end_as is not None:
                     # the body of a summarised iteration (e.g. the closure of Iterator::fold): one turn ends here
-                    self._end("backedge", st, value=val, where=fr.end_as)
-                    return
+                    if fr.end_try is None:
+                        self._end("backedge", st, value=val, where=fr.end_as)
+                        return
+                    # try_fold: a "continue" result (Some / Ok / Continue) ends the turn with the new accumulator; a residual
+                    # (None / Err / Break) is what the whole try_fold returns
+                    good, bad = fr.end_try
+                    var = st.cons.variant_of(val)
+                    if var == good:
+                        self._end("backedge", st, value=(agg_get(val, "0") if is_agg(val) else ("payload", val, good, "0")), where=fr.end_as)
+                        return
+                    if var is None:
+                        s2 = st.copy()
+                        if s2.cons.set_variant(val, good):
+                            self._end("backedge", s2, value=("payload", val, good, "0"), where=fr.end_as)
+                        if not st.cons.set_variant(val, bad):
+                            self._end("infeasible", st)
+                            return
+                    elif var != bad:
+                        raise Unsupported("try_fold step returned variant %s in %s" % (var, info.name))
                 st.frames.pop()
                 caller = st.frames[-1]
                 self.emit(st, {"k": "inline_ret", "fn": info.name, "value": val})
@@ -1455,11 +1487,12 @@ class PX:
                 ty = o.get("place", {}).get("ty", {})
                 self._write(st, a[1], a[2], ("havoc", res, i))
 
-    def _push_frame(self, st, target, args, dest, ret_target, wrap=None, end_as=None):
+    def _push_frame(self, st, target, args, dest, ret_target, wrap=None, end_as=None, end_try=None):
         info = self.info(target)
         caller = st.frames[-1]
         nf = Frame(info, st.nfid, caller.depth + 1)
         nf.end_as = end_as
+        nf.end_try = end_try
         st.nfid += 1
         nf.ret_dest = dest
         nf.ret_target = ret_target
@@ -1508,7 +1541,7 @@ class PX:
             if "inline" in o:
                 e2["inlined"] = True
                 self.emit(s2, e2)
-                self._push_frame(s2, o["inline"], o["args"], t["dest"], t["target"], o.get("wrap"), o.get("end_as"))
+                self._push_frame(s2, o["inline"], o["args"], t["dest"], t["target"], o.get("wrap"), o.get("end_as"), o.get("end_try"))
             else:
                 e2["result"] = o["value"]
                 self.emit(s2, e2)
